@@ -27,6 +27,7 @@ class RunCtx:
         self.world = world
         self.index_of = world.index_of
         self.starts = {}        # node idx -> number of on_node_start seen
+        self.by_task = {}       # (task id, node idx) -> [invocation index, body calls]
         self.calls = {}         # node idx -> body calls since last start
         self.input_kwargs = input_kwargs
         self.ntasks = 0         # tasks created by this run (local task indices, as in the model)
@@ -137,6 +138,9 @@ class World:
                 i = world.index_of.get(node_id, -1)
                 r.starts[i] = r.starts.get(i, 0) + 1
                 r.calls[i] = 0
+                # the invocation index belongs to the task that starts the node (two scopes may execute one node
+                # at the same time, e.g. overlapping recurrent subgraphs)
+                r.by_task[(id(asyncio.current_task()), i)] = [r.starts[i] - 1, 0]
                 world.obs.append(['emit', 'nstart', r.rid, i, None])
                 await _yields('nstart', i)
 
@@ -242,6 +246,13 @@ class World:
     def _counters(self, idx):
         r = CURRENT_RUN.get()
         r.calls[idx] = r.calls.get(idx, 0) + 1
+        try:
+            rec = r.by_task.get((id(asyncio.current_task()), idx))
+        except RuntimeError:
+            rec = None
+        if rec is not None:
+            rec[1] += 1
+            return r, rec[0], rec[1]
         return r, max(r.starts.get(idx, 1) - 1, 0), r.calls[idx]
 
     def _outcome(self, idx, inst, kw, inv, att):
@@ -489,13 +500,13 @@ def run_program(spec, policy, n_runs=1, inputs=None, drain=True, world=None, kee
             elif ch[0] == 'gate':
                 g = next(g for g in gates if g.key == ch[1])
                 w.release(g)
-                ev = {'k': 'gate', 'g': g.key, 'obs': w.take_obs()}
+                ev = {'k': 'gate', 'g': g.key, 'obs': w.take_obs(), 'idle': not ready}
             elif ch[0] == 'timer':
                 before = set(loop.ready_tasks())
                 loop.fire_next_timer()
                 woken = [t for t in loop.ready_tasks() if t not in before]
                 ev = {'k': 'timer', 'woken': [loop.tasks[t].local for t in woken],
-                      'rid': loop.tasks[woken[0]].rid if woken else 0, 'obs': w.take_obs()}
+                      'rid': loop.tasks[woken[0]].rid if woken else 0, 'obs': w.take_obs(), 'idle': not ready}
             elif ch[0] == 'cancel':
                 ctxs[ch[1]].task.cancel()
                 loop.run_plumbing()
